@@ -237,6 +237,19 @@ def coq_check_properties(pid, timeout=600):
     return res
 
 
+def coqchk_properties(pid, timeout=2400):
+    """Thorough tier: re-check the compiled Properties module and everything it depends on with the independent
+    checker; returns (ok, summary lines, wall seconds)."""
+    outdir = os.path.join(BUILD, pid)
+    rc, so, se, dt = run(["coqchk", "-silent", "-o", "-Q", "theories", "Tulz", "-Q", "gen", "TulzGen", "-R", outdir, "",
+                          f"Properties_{pid}"], cwd=COQ, timeout=timeout)
+    txt = so + se
+    summary = [l.strip() for l in txt.splitlines() if l.strip().startswith("*")]
+    ok = rc == 0 and any("Axioms: <none>" in l for l in summary) and \
+        not any(("type-in-type" in l or "unsafe" in l or "positivity" in l) and "<none>" not in l for l in summary)
+    return ok, (summary if summary else [txt[-400:]]), dt
+
+
 def build_modelrun():
     """Extracts the model runners and builds build/modelrun when stale."""
     with Lock(".ocaml.lock"):
